@@ -18,8 +18,8 @@ import (
 // event it executes against the real heap, otherwise the path has diverged. Data stays
 // symbolic (nondeterministic inputs are fresh variables as in SEQ mode), so a replay path that
 // consumes the whole schedule and on which the failing assertion is satisfiable confirms the
-// counterexample independently of the partial-order encoding. What it does not confirm is the
-// maximality part of a quiescence query (that no thread could have made another step).
+// counterexample independently of the partial-order encoding. For a quiescence query the end
+// state is probed too (probeMaximal): no unfinished thread may be able to take another step.
 
 type rpThread struct {
 	T       *POThread
@@ -33,6 +33,7 @@ type rpThread struct {
 }
 
 type rpState struct {
+	Probe   bool // maximality probe: event sites are executed without consulting the schedule
 	Idx     int
 	Cur     int
 	Threads []*rpThread
@@ -40,7 +41,7 @@ type rpState struct {
 }
 
 func (s *rpState) clone() *rpState {
-	n := &rpState{Idx: s.Idx, Cur: s.Cur, Last: s.Last}
+	n := &rpState{Idx: s.Idx, Cur: s.Cur, Last: s.Last, Probe: s.Probe}
 	for _, t := range s.Threads {
 		c := *t
 		if t.Panic != nil {
@@ -68,6 +69,9 @@ type POReplay struct {
 	Hit      bool     // the target assertion failed on a path that consumed the schedule up to it
 	Labels   map[string]bool // labels of all assertions that failed on replay paths
 	NeedViolation bool        // keep exploring data forks until an assertion fails on a complete path
+	CheckMaximal  bool        // quiescence query: at the end of the schedule every unfinished thread must be blocked
+	Maximal       bool        // some complete path passed the maximality probe
+	NotMaximal    string      // why the probe failed on the last complete path that failed it
 }
 
 // MemHook: nothing is intercepted, all accesses go to the shared heap.
@@ -160,8 +164,7 @@ func (rp *POReplay) nextIsCurrent(st *State) bool {
 func (rp *POReplay) atSite(r *Run, st *State, pos string) (rpAction, error) {
 	s := st.Rp
 	if s.Idx >= len(rp.Sched) {
-		rp.Complete = true
-		rp.note(st, "schedule complete")
+		rp.completed(r, st)
 		return rpStop, nil
 	}
 	ev := rp.Sched[s.Idx]
@@ -202,8 +205,7 @@ func (rp *POReplay) threadEnd(r *Run, st *State) (bool, error) {
 	s.Threads[s.Cur].Frames = nil
 	st.Frames = nil
 	if s.Idx >= len(rp.Sched) {
-		rp.Complete = true
-		rp.note(st, "schedule complete")
+		rp.completed(r, st)
 		return false, nil
 	}
 	ev := rp.Sched[s.Idx]
@@ -217,6 +219,65 @@ func (rp *POReplay) threadEnd(r *Run, st *State) (bool, error) {
 		return false, err
 	}
 	return true, nil
+}
+
+// completed is called when a path has consumed the whole schedule.
+func (rp *POReplay) completed(r *Run, st *State) {
+	rp.Complete = true
+	rp.note(st, "schedule complete")
+	if !rp.CheckMaximal {
+		return
+	}
+	if ok, why := rp.probeMaximal(r, st); ok {
+		rp.Maximal = true
+	} else {
+		rp.NotMaximal = why
+	}
+}
+
+// probeMaximal checks the other half of a quiescent counterexample: in the state reached at
+// the end of the schedule every thread that has not finished is suspended in front of an event
+// site that cannot execute (an empty channel, a select without a ready case, a held mutex).
+// Each such thread is resumed on a copy of the state and asked to execute that one instruction.
+func (rp *POReplay) probeMaximal(r *Run, st *State) (bool, string) {
+	s := st.Rp
+	if s.Cur >= 0 && s.Cur < len(s.Threads) && len(st.Frames) > 0 {
+		c := s.Threads[s.Cur]
+		c.Frames = st.Frames
+		c.PanicOK, c.Panic = st.PanicOK, st.Panic
+	}
+	for i, t := range s.Threads {
+		if t.Done || t.T.Final {
+			continue
+		}
+		if !t.Started {
+			return false, "thread " + t.T.Name + " was never started"
+		}
+		if len(t.Frames) == 0 {
+			continue
+		}
+		f := st.Fork()
+		f.Rp.Probe = true
+		f.Rp.Cur = i
+		ft := f.Rp.Threads[i]
+		f.Frames = ft.Frames
+		ft.Frames = nil
+		f.PanicOK, f.Panic = ft.PanicOK, ft.Panic
+		nw := len(r.work)
+		err := r.step(f)
+		r.work = r.work[:nw]
+		if err == nil {
+			return false, "thread " + t.T.Name + " can still execute " + f.curPos()
+		}
+		pe, ok := err.(pathEnd)
+		if !ok || pe.kind != EndBlocked {
+			return false, "thread " + t.T.Name + ": probe ended with " + err.Error()
+		}
+		if os.Getenv("VERIF_RPDEBUG") != "" {
+			fmt.Fprintf(os.Stderr, "    maximality probe: thread %s is blocked (%s)\n", t.T.Name, pe.msg)
+		}
+	}
+	return true, ""
 }
 
 // spawn registers the child thread of the spawn event just consumed.
@@ -283,7 +344,7 @@ func (rp *POReplay) Run(r *Run, prologue *State) {
 				rp.Hit = true
 			}
 		}
-		if rp.Complete && (!rp.NeedViolation || len(rp.Labels) > 0) {
+		if rp.Complete && (!rp.NeedViolation || len(rp.Labels) > 0) && (!rp.CheckMaximal || rp.Maximal) {
 			break
 		}
 	}
